@@ -363,7 +363,7 @@ def run_case(case, obs):
     start = build.start_of(d)
     # ---- (i) invocation periods
     got = [o["t"] for o in rec]
-    exp = simrun.expected_invocations(d, T)
+    exp = simrun.expected_invocations(d, T, default_mr=getattr(sim.scheduler, "max_recompute", 1) or 1)
     if got != exp:
         obs.violate("invocation_periods", f"scheduler ran in periods {got}, required {exp} (max_recompute={mr})", **wit)
     traced = [t for t, letter, _ in probe.trace if letter == "S"]
@@ -373,7 +373,7 @@ def run_case(case, obs):
         obs.violate("invocation_periods", f"scheduler.run calls {traced} vs schedule() calls {got}", **wit)
     strs = probe.period_strings()
     for t, s_ in strs.items():
-        if "S" in s_ and not (s_.index("S") > max([s_.rfind("U"), s_.rfind("P")]) and s_.index("S") < s_.index("A")):
+        if "S" in s_ and not (s_.index("S") > max([s_.rfind("U"), s_.rfind("P")]) and ("A" not in s_ or s_.index("S") < s_.index("A"))):
             obs.violate("invocation_before_events_applied", f"period {t}: trace {s_}", **wit)
     evt = simrun.event_times(d)
     obs.ev("invocations_without_event", sum(1 for t in got if t not in evt))
@@ -451,7 +451,13 @@ def run_case(case, obs):
             if not boundary and {k: float(v) for k, v in o["last_pilot"].items()} != exp_lp:
                 obs.violate("observed_last_applied_pilots", f"period {t}: saw {o['last_pilot']}, recorded pilots of period {t - 1}: {exp_lp}", **w)
         elif o["last_pilot"] != {}:
-            obs.violate("observed_last_applied_pilots", f"period {t} (< 2): expected no pilots, saw {o['last_pilot']}", **w)
+            # the statement starts at the third period; before it "nothing yet" is what the library answers, and the true pilots
+            # of period 0 (asked in period 1) would be just as truthful
+            exp_lp = {sid: float(ps[row[sess[sid]["station"]], 0]) for sid in exp_active if sess[sid]["arrival"] <= 0} if t == 1 else None
+            if boundary or (exp_lp is not None and {k: float(v) for k, v in o["last_pilot"].items()} == exp_lp):
+                obs.ev("early_pilot_queries_answered_with_period_0_pilots")
+            else:
+                obs.violate("observed_last_applied_pilots", f"period {t} (< 2): expected no pilots (or those of period 0), saw {o['last_pilot']}", **w)
         # infrastructure
         obs.ev("infrastructure_judged")
         inf = dict(o["info"])
